@@ -1636,20 +1636,28 @@ func forkResume(a *args, r *rand.Rand, env *sysEnv, cfg runCfg, base uint64, arr
 			parent[cb.ID] = chainBlock{Num: cb.Num - 1, ID: cb.Parent}
 		}
 	}
-	var orphans, others []int
+	// the messages a client may reconnect from: data messages of blocks orphaned afterwards, undo signals (their
+	// last_valid_cursor), data messages of blocks still on the chain
+	var orphans, undos, others []int
 	for i, m := range first {
 		if m.cursor == "" || m.Num+1 < base {
 			continue
 		}
-		if m.Num >= base && !onCanon[m.ID] {
+		switch {
+		case m.Num >= base && !onCanon[m.ID]:
 			orphans = append(orphans, i)
-		} else {
+		case m.Kind == "undo":
+			undos = append(undos, i)
+		default:
 			others = append(others, i)
 		}
 	}
 	var picks []int
 	if len(orphans) > 0 {
 		picks = append(picks, orphans[r.Intn(len(orphans))])
+	}
+	if len(undos) > 0 {
+		picks = append(picks, undos[r.Intn(len(undos))])
 	}
 	if len(others) > 0 && (len(picks) == 0 || r.Intn(2) == 0) {
 		picks = append(picks, others[r.Intn(len(others))])
@@ -1674,7 +1682,20 @@ func forkResume(a *args, r *rand.Rand, env *sysEnv, cfg runCfg, base uint64, arr
 		rc := config.RuntimeConfig{SegmentSize: cfg.Seg, DefaultParallelSubrequests: uint64(cfg.Workers), BaseObjectStore: basest, DefaultCacheTag: "tag", MaxJobsAhead: 10,
 			WorkerFactory: func(*zap.Logger) work.Worker { wid++; return &gatedWorker{env: env, cfg: cfg, gate: gate, id: wid} }}
 		resolved := map[string]any{"called": false, "num": 0, "id": ""}
-		svc := service.TestNewService(rc, cfg.Lib, func(ctx context.Context, h bstream.Handler, st int64, stop uint64, _ string, _ bool, _ bool, _ *zap.Logger, _ ...bsstream.Option) (service.Streamable, error) {
+		streamArgs := map[string]any{"cursor": false, "target": false, "from": int64(-1)}
+		svc := service.TestNewService(rc, cfg.Lib, func(ctx context.Context, h bstream.Handler, st int64, stop uint64, curStr string, _ bool, cursorIsTarget bool, _ *zap.Logger, _ ...bsstream.Option) (service.Streamable, error) {
+			// bstream's joining source: "startBlockNum is overridden by the cursor if it exists, unless we are in cursorIsTarget
+			// mode" - with a cursor that is not a target the stream resumes right after the cursor's block (from the block
+			// itself for an undo-step cursor) whatever the start number says
+			if curStr != "" && !cursorIsTarget {
+				if c, err := bstream.CursorFromOpaque(curStr); err == nil {
+					st = int64(c.Block.Num()) + 1
+					if c.Step.Matches(bstream.StepUndo) {
+						st = int64(c.Block.Num())
+					}
+				}
+			}
+			streamArgs["cursor"], streamArgs["target"], streamArgs["from"] = curStr != "", cursorIsTarget, st
 			return streamFunc(func(ctx context.Context) error {
 				for n := uint64(st); n < base; n++ {
 					blk := mkBlock(n, finalID(n), finalID(n-1), n)
@@ -1758,7 +1779,7 @@ func forkResume(a *args, r *rand.Rand, env *sysEnv, cfg runCfg, base uint64, arr
 			obs.Err = err.Error()
 		}
 		a.emitNT(map[string]any{"ev": "forkresume", "cfg": cfg, "base": base, "arrival": arrival, "steps": jsteps, "fromidx": k + 1,
-			"from": from, "before": first[:k+1], "resolved": resolved, "obs": obs}, len(obs.Resp) > 1)
+			"from": from, "before": first[:k+1], "resolved": resolved, "stream": streamArgs, "obs": obs}, len(obs.Resp) > 1)
 	}
 }
 
